@@ -17,12 +17,12 @@ def prop(pid, units, level, technique, design_ref, text, note):
 
 
 prop("C14",
-     units=[("verus", "u1_cell", None), ("kani", "u1k_cell", None), ("verus", "u10_optloop", None)],
+     units=[("verus", "u1_cell", None), ("kani", "u1k_cell", None), ("verus", "u10_optloop", None), ("native", "n4_loop_motion", None)],
      level="proof",
      technique="Verus deductive proof of trait-level contracts on the real CellType code (all four widths), plus loop-free/width-bounded Kani contract harnesses as counterexample twins",
      design_ref="DESIGN.md section 4-U1, 5-C14",
      text="Unbounded proof: wrapping_div/inv/pow and the conversions are verified against mathematical contracts generic in the width; each of the four impls is verified against the trait contracts. Consumer obligation (unit u10): OptRebuild::analyze_loop, the one place where wrapping_div / wrapping_inv decide a loop's trip count, reports the LEAST k with m + k*inc == 0 (mod 2^bits), reports 'infinite' only when no k exists, and for an unknown initial value a count x with x*(-inc) == [cond].",
-     note="Trusted: Verus+Z3, vstd, assume_specification of uN::{checked_shl,checked_shr,wrapping_neg}, the extractor's desugarings D1/D3/D10. In u10 the analysis state is reduced to three fields (D10), its knowledge comes through three uninterpreted boundary functions, Expr is opaque with the u4 contracts, and Expr::mul's contract is ASSUMED. Not decided: the second consumer (geometric closed form in loop_motion).")
+     note="Trusted: Verus+Z3, vstd, assume_specification of uN::{checked_shl,checked_shr,wrapping_neg}, the extractor's desugarings D1/D3/D10. In u10 the analysis state is reduced to three fields (D10), its knowledge comes through three uninterpreted boundary functions, Expr is opaque with the u4 contracts, and Expr::mul's contract is ASSUMED. The second consumer (geometric / arithmetic closed forms in loop_motion: HashSet/HashMap parameters, closures) is covered ONLY by a BOUNDED STAND-IN (unit n4_loop_motion: the real function on enumerated loop bodies, u8 exhaustive over multiplier and trip count; counted separately, never as proved).")
 
 prop("C18",
      units=[("kani", "u3_smallvec", None)],
@@ -77,12 +77,12 @@ prop("C08",
      note="The JIT's generated call sequences around Inp/Out (argument set-up, push/pop symmetry, alignment, jump to the termination path iff the shim reports failure) are decided by unit u6 for enumerated cell offsets / live masks over all machine states. NOT decided: llvmjit (feature off); irint Calc arm.")
 
 prop("C02",
-     units=[("kani", "u5_bcint_ops", None), ("kani", "u9_bc_passes", None), ("native", "n1_emit", None)],
+     units=[("kani", "u5_bcint_ops", None), ("kani", "u9_bc_passes", None), ("native", "n1_emit", None), ("native", "n2_bc_passes", None)],
      level="model_checking",
      technique="Kani contract harnesses calling each threaded-op instantiation of the real bcint::ops directly on a symbolic machine state and comparing the whole post-state with a bytecode step semantics",
      design_ref="DESIGN.md section 4-U5, 5-C02",
      text="Interpreter-op layer only: every op instantiation exercised computes bc_step over the documented stream layout for all cell/temp/register contents, offsets and immediates (complete per instantiation); instantiations are enumerated (quick: seeded sample; thorough: all 1116 at u8).",
-     note="Also decided: the generator passes parameter_reordering, strip_noops, record_branch_targets, count_temps (unit u9). BOUNDED STAND-IN (native enumeration, not a proof): ops::emit (op selection and operand word order for all 1116 operand-kind combinations) and build_threaded_code (limit placement, branch patching) -- Kani needs > 65 GB for the op_match! expansion. NOT decided: the other bytecode-generator passes (emit_block, dead_store_elim, allocate_temps, zeroing_move_detection: std hash collections, Kani does not finish), the optimiser in front (C01), the release-build tail-call dispatcher. A defect there is not detected by this check.")
+     note="Also decided: the generator passes parameter_reordering, strip_noops, record_branch_targets, count_temps (unit u9). BOUNDED STAND-IN (native enumeration, not a proof): ops::emit (op selection and operand word order for all 1116 operand-kind combinations) and build_threaded_code (limit placement, branch patching) -- Kani needs > 65 GB for the op_match! expansion. The other bytecode-generator passes (emit_block, dead_store_elim, allocate_temps, zeroing_move_detection: std hash collections, Kani does not finish, Verus rejects) are covered ONLY by a BOUNDED STAND-IN (unit n2_bc_passes: zeroing_move_detection on all sequences of <= 3 instructions over a small alphabet; translate end to end on a fixed pseudo-random sample of structured IR programs against bc_step / IR semantics) -- counted separately, never as proved. NOT decided: the optimiser in front (C01), the release-build tail-call dispatcher. A defect there is not detected by this check.")
 
 prop("C06",
      units=[("kani", "u2_tape", None), ("kani", "u5_bcint_ops", None), ("kani", "u2b_bccontext", None), ("kani", "u6b_jit_shims", None), ("kani", "u6_jit", None)],
